@@ -409,6 +409,12 @@ func (a *Act) intrinsic(name string, fv FuncV, args []Value) (Value, bool) {
 				nw = False
 			case "RLock":
 				bad = Or(bad, And(al.g, w))
+				if !in.isHarnessFn(a.fn) {
+					// recursive read locking is prohibited (sync.RWMutex): once a writer is waiting - any
+					// balancer callback, completion or pick may be one - the second RLock blocks forever
+					// while the first is never released
+					in.obligation(And(a.g, al.g), "rlock", "recursive read lock: RLock on a RWMutex this call already read-holds in "+a.fn.String()+" (deadlocks as soon as a writer is waiting)", Not(Eq(r, BV(8, 0))))
+				}
 				nr = BvBin("bvadd", r, BV(8, 1))
 			case "RUnlock":
 				bad = Or(bad, And(al.g, Eq(r, BV(8, 0))))
